@@ -243,6 +243,8 @@ func normalize(cs Case) Case {
 type Viol struct {
 	Tag string
 	Msg string
+	Ctx int      // context index the violation was seen in
+	Ops []string // ids of the ops blamed (wrappers holding the use / definitions)
 }
 
 type names struct {
@@ -382,7 +384,11 @@ func reference(ops []Op) []execOp {
 //	   its call / class name / once content inside its own wrapper.
 func checkStream(nm *names, out []byte, ops []Op, pre map[string]bool) []Viol {
 	var vs []Viol
-	add := func(tag, f string, a ...any) { vs = append(vs, Viol{tag, fmt.Sprintf(f, a...)}) }
+	var blame []string
+	add := func(tag, f string, a ...any) {
+		vs = append(vs, Viol{Tag: tag, Msg: fmt.Sprintf(f, a...), Ops: blame})
+		blame = nil
+	}
 	toks, err := html5.Tokenize(out)
 	if err != nil {
 		add("tokenizer", "tokenizer error %v", err)
@@ -397,9 +403,11 @@ func checkStream(nm *names, out []byte, ops []Op, pre map[string]bool) []Viol {
 	}
 	defAt := map[string]int{} // item -> index of first definition
 	defN := map[string]int{}
+	defOps := map[string][]string{} // item -> wrappers holding its definitions
 	type use struct {
 		item string
 		at   int
+		op   string
 	}
 	var uses []use
 	got := map[string][]fact{} // op id -> what was rendered directly inside
@@ -431,6 +439,7 @@ func checkStream(nm *names, out []byte, ops []Op, pre map[string]bool) []Viol {
 			}
 			if h, ok := attr["data-once"]; ok {
 				defN["once "+h]++
+				defOps["once "+h] = append(defOps["once "+h], top())
 				got[top()] = append(got[top()], fact{"once", h, ""})
 			}
 			if bk, ok := attr["data-badkind"]; ok {
@@ -441,14 +450,14 @@ func checkStream(nm *names, out []byte, ops []Op, pre map[string]bool) []Viol {
 					for _, c := range strings.Fields(a.Val) {
 						got[top()] = append(got[top()], fact{"class", c, ""})
 						if isClass[c] {
-							uses = append(uses, use{"class " + c, i})
+							uses = append(uses, use{"class " + c, i, top()})
 						}
 					}
 				}
 				if strings.HasPrefix(a.Key, "on") || strings.HasPrefix(a.Key, "hx-on") {
 					got[top()] = append(got[top()], fact{"attr", a.Key, a.Val})
 					if m := reCall.FindStringSubmatch(a.Val); m != nil && isScript[m[1]] {
-						uses = append(uses, use{"script " + m[1], i})
+						uses = append(uses, use{"script " + m[1], i, top()})
 					}
 				}
 			}
@@ -461,7 +470,9 @@ func checkStream(nm *names, out []byte, ops []Op, pre map[string]bool) []Viol {
 							defAt[it] = i
 						}
 						defN[it]++
+						defOps[it] = append(defOps[it], top())
 						if pre[m[1]] {
+							blame = []string{top()}
 							add("mw-inlined", "class %s is registered with the CSS middleware but its rule was inlined", m[1])
 						}
 					}
@@ -473,11 +484,12 @@ func checkStream(nm *names, out []byte, ops []Op, pre map[string]bool) []Viol {
 							defAt[it] = i
 						}
 						defN[it]++
+						defOps[it] = append(defOps[it], top())
 					}
 					if len(fns) == 0 {
 						got[top()] = append(got[top()], fact{"scriptcall", body, ""})
 						if m := reCall.FindStringSubmatch(body); m != nil && isScript[m[1]] {
-							uses = append(uses, use{"script " + m[1], i})
+							uses = append(uses, use{"script " + m[1], i, top()})
 						}
 					}
 				}
@@ -496,6 +508,7 @@ func checkStream(nm *names, out []byte, ops []Op, pre map[string]bool) []Viol {
 	sort.Strings(items)
 	for _, it := range items {
 		if defN[it] > 1 {
+			blame = defOps[it]
 			add("dup-def:"+strings.Fields(it)[0], "%s is defined %d times in one context", it, defN[it])
 		}
 	}
@@ -512,10 +525,12 @@ func checkStream(nm *names, out []byte, ops []Op, pre map[string]bool) []Viol {
 		d, ok := defAt[u.item]
 		if !ok {
 			reported[u.item] = true
-			add("use-without-def:"+typ, "%s is used (token %d: %s) but its definition is never emitted", u.item, u.at, toks[u.at])
+			blame = []string{u.op}
+			add("use-not-preceded-by-def:"+typ, "%s is used (token %d: %s) but its definition is never emitted", u.item, u.at, toks[u.at])
 		} else if d >= u.at {
 			reported[u.item] = true
-			add("use-before-def:"+typ, "%s is used at token %d but defined only at token %d", u.item, u.at, d)
+			blame = append([]string{u.op}, defOps[u.item]...)
+			add("use-not-preceded-by-def:"+typ, "%s is used at token %d (%s) but defined only at token %d", u.item, u.at, toks[u.at], d)
 		}
 	}
 	// R3
@@ -537,6 +552,7 @@ func checkStream(nm *names, out []byte, ops []Op, pre map[string]bool) []Viol {
 					}
 				}
 				if !found {
+					blame = []string{e.op.ID}
 					add("missing-use:"+f.kind, "op %s (%s) did not render its %s %s %s; rendered there: %v", e.op.ID, opText([]Op{e.op}), f.kind, f.a, f.b, got[e.op.ID])
 				}
 			}
@@ -737,7 +753,7 @@ func (e *engine) judge(cs Case) []Viol {
 	var vs []Viol
 	for _, er := range r.Errs {
 		if er != "" {
-			vs = append(vs, Viol{"render-error", "render failed: " + er})
+			vs = append(vs, Viol{Tag: "render-error", Msg: "render failed: " + er})
 		}
 	}
 	if len(vs) > 0 {
@@ -745,7 +761,7 @@ func (e *engine) judge(cs Case) []Viol {
 	}
 	if cs.Mode == "http" {
 		if len(r.Outs) != 2 {
-			return []Viol{{"harness", "http job returned no bodies"}}
+			return []Viol{{Tag: "harness", Msg: "http job returned no bodies"}}
 		}
 		pre := map[string]bool{}
 		for _, p := range cs.Pre {
@@ -753,35 +769,36 @@ func (e *engine) judge(cs Case) []Viol {
 		}
 		body := unb64(r.Outs[0])
 		if !bytes.Equal(body, unb64(r.Outs[1])) {
-			vs = append(vs, Viol{"mw-requests-differ", fmt.Sprintf("two requests through the same middleware rendered differently: %q vs %q", body, unb64(r.Outs[1]))})
+			vs = append(vs, Viol{Tag: "mw-requests-differ", Msg: fmt.Sprintf("two requests through the same middleware rendered differently: %q vs %q", body, unb64(r.Outs[1]))})
 		}
 		vs = append(vs, checkStream(e.nm, body, flat(cs.Ctxs[0]), pre)...)
 		// R5: registered classes are served by the stylesheet endpoint
 		css := string(unb64(r.CSS))
 		for _, p := range cs.Pre {
 			if !strings.Contains(css, e.nm.rules[p%nClasses]) {
-				vs = append(vs, Viol{"mw-not-served", fmt.Sprintf("registered class %s is not served by the stylesheet endpoint (body %q)", e.nm.classes[p%nClasses], css)})
+				vs = append(vs, Viol{Tag: "mw-not-served", Msg: fmt.Sprintf("registered class %s is not served by the stylesheet endpoint (body %q)", e.nm.classes[p%nClasses], css)})
 			}
 		}
 		if len(cs.Pre) > 0 && !strings.HasPrefix(r.CSSType, "text/css") {
-			vs = append(vs, Viol{"mw-not-served", fmt.Sprintf("stylesheet endpoint content type %q", r.CSSType)})
+			vs = append(vs, Viol{Tag: "mw-not-served", Msg: fmt.Sprintf("stylesheet endpoint content type %q", r.CSSType)})
 		}
 		return vs
 	}
 	if len(r.Outs) != len(cs.Ctxs) {
-		return []Viol{{"harness", "driver returned a wrong number of outputs"}}
+		return []Viol{{Tag: "harness", Msg: "driver returned a wrong number of outputs"}}
 	}
 	for i, c := range cs.Ctxs {
 		out := unb64(r.Outs[i])
 		for _, v := range checkStream(e.nm, out, flat(c), nil) {
 			v.Msg = fmt.Sprintf("context %d: %s", i, v.Msg)
+			v.Ctx = i
 			vs = append(vs, v)
 		}
 		// R4: contexts are independent: same bytes as the same history alone
 		if len(cs.Ctxs) > 1 {
 			iso := e.cache[caseJSON(normalize(isolated(c)))]
 			if iso != nil && len(iso.Outs) == 1 && !bytes.Equal(unb64(iso.Outs[0]), out) {
-				vs = append(vs, Viol{"isolation", fmt.Sprintf("context %d rendered %q next to other contexts but %q alone", i, out, unb64(iso.Outs[0]))})
+				vs = append(vs, Viol{Tag: "isolation", Msg: fmt.Sprintf("context %d rendered %q next to other contexts but %q alone", i, out, unb64(iso.Outs[0]))})
 			}
 		}
 	}
@@ -829,8 +846,8 @@ func randOp(r *rand.Rand, depth int, budget *int) Op {
 	case p < 13:
 		o.K = classForms[r.Intn(len(classForms))]
 		o.I, o.J = r.Intn(nClasses), r.Intn(nClasses)
-		if o.I == o.J && o.V != o.W {
-			o.W = o.V
+		if o.I == o.J { // never the same class both enabled and disabled
+			o.W = o.V || o.K == "cmix"
 		}
 		if o.K == "cdyn" {
 			flag := map[int]bool{}
@@ -938,6 +955,18 @@ func size(cs Case) int {
 	walk = func(ops []Op) {
 		for _, o := range ops {
 			n += 10 + o.I + o.J + len(o.E)*3
+			switch o.K {
+			case "onc", "ckv", "ckvc", "ccond", "ckvs", "cmix":
+				if !o.V {
+					n++
+				}
+			}
+			switch o.K {
+			case "ckvs", "cmix":
+				if !o.W {
+					n++
+				}
+			}
 			if o.A != "a" {
 				n++
 			}
@@ -1000,6 +1029,31 @@ func opReductions(ops []Op) [][]Op {
 			mod(func(o *Op) { o.B = "a" })
 		}
 		switch o.K {
+		case "onc", "ckv", "ckvc", "ccond", "ckvs", "cmix":
+			if !o.V {
+				mod(func(o *Op) { o.V = true })
+			}
+		}
+		switch o.K {
+		case "ckvs", "cmix":
+			if !o.W {
+				mod(func(o *Op) { o.W = true })
+			}
+			if !o.W && !o.V {
+				mod(func(o *Op) { o.V, o.W = true, true })
+			}
+			if o.J != o.I {
+				mod(func(o *Op) { o.J, o.W = o.I, o.V || o.K == "cmix" })
+			}
+		}
+		if o.K == "cdyn" && len(o.E) == 1 {
+			e := o.E[0]
+			static := map[string]string{"d": "cd", "kv": "ckv", "kvc": "ckvc", "sl": "csl", "n": "cc", "fn": "cfn", "kvs": "ckvs"}
+			if k, ok := static[e.F]; ok {
+				mod(func(o *Op) { o.K, o.I, o.J, o.V, o.W, o.E = k, e.I, e.I, e.V, e.V, nil })
+			}
+		}
+		switch o.K {
 		case "on2", "onc", "hx":
 			mod(func(o *Op) { o.K = "on" })
 		case "cc", "csl", "cn", "cma", "ccond":
@@ -1024,11 +1078,83 @@ func opReductions(ops []Op) [][]Op {
 	return out
 }
 
+// valid: within one class expression a css component is never both enabled
+// and disabled (see the assumption in Run).
+func valid(cs Case) bool {
+	ok := true
+	var walk func(ops []Op)
+	walk = func(ops []Op) {
+		for _, o := range ops {
+			switch o.K {
+			case "ckvs":
+				if o.I%nClasses == o.J%nClasses && o.V != o.W {
+					ok = false
+				}
+			case "cmix":
+				if o.I%nClasses == o.J%nClasses && !o.W {
+					ok = false
+				}
+			case "cdyn":
+				flag := map[int]bool{}
+				for _, e := range o.E {
+					v := e.V
+					switch e.F {
+					case "d", "sl", "n", "fn":
+						v = true
+					case "s", "m", "ks":
+						continue
+					}
+					if old, seen := flag[e.I%nClasses]; seen && old != v {
+						ok = false
+					}
+					flag[e.I%nClasses] = v
+				}
+			}
+			walk(o.Sub)
+		}
+	}
+	for _, c := range cs.Ctxs {
+		for _, ch := range c.Chunks {
+			walk(ch)
+		}
+	}
+	return ok
+}
+
+// sliceCase keeps only the blamed context and, in it, the blamed ops with
+// their ancestors (one chunk).
+func sliceCase(cs Case, v Viol) (Case, bool) {
+	if len(v.Ops) == 0 || v.Ctx >= len(cs.Ctxs) {
+		return cs, false
+	}
+	keep := map[string]bool{}
+	for _, id := range v.Ops {
+		keep[id] = true
+	}
+	var prune func(ops []Op) []Op
+	prune = func(ops []Op) []Op {
+		var out []Op
+		for _, o := range ops {
+			o.Sub = prune(o.Sub)
+			if keep[o.ID] || len(o.Sub) > 0 {
+				out = append(out, o)
+			}
+		}
+		return out
+	}
+	c := cloneCase(cs)
+	ctx := c.Ctxs[v.Ctx]
+	ctx.Chunks = [][]Op{prune(flat(ctx))}
+	c.Ctxs = []Ctx{ctx}
+	c.Order = []int{0}
+	return normalize(c), true
+}
+
 func reductions(cs Case) []Case {
 	var out []Case
 	add := func(c Case) {
 		c = normalize(c)
-		if size(c) < size(cs) {
+		if size(c) < size(cs) && valid(c) {
 			out = append(out, c)
 		}
 	}
@@ -1104,15 +1230,35 @@ type failure struct {
 	tag string
 }
 
-// shrinkAll reduces every (case, rule tag) failure to a local minimum: no
-// one-step reduction still violates the same rule. Lock step, merged.
-func (e *engine) shrinkAll(fails []failure) []failure {
+// shrinkAll reduces every (case, rule tag) failure to a canonical witness:
+// (1) blame slice (only the blamed context and ops), kept if it still violates
+// the same rule; (2) greedy one-step reductions (drop contexts/chunks/ops,
+// hoist, leave the middleware, simpler op forms, canonical item names and
+// flags) until none violates the rule any more. All failures advance in lock
+// step (one driver batch per round); equal cases are merged.
+func (e *engine) shrinkAll(fails []failure, viols []Viol) []failure {
 	cur := map[string]failure{}
-	for _, f := range fails {
+	var slices []Case
+	var sliced []bool
+	for i, f := range fails {
+		sc, ok := sliceCase(f.cs, viols[i])
+		slices = append(slices, sc)
+		sliced = append(sliced, ok)
+	}
+	got := e.evaluate(slices)
+	kept := 0
+	for i, f := range fails {
+		if _, still := hasTag(got[i], f.tag); sliced[i] && still {
+			f.cs = slices[i]
+			kept++
+		}
 		cur[f.tag+" @ "+caseText(f.cs)] = f
 	}
+	dbg("blame slices that still fail: %d of %d; distinct %d", kept, len(fails), len(cur))
+	const window = 60
+	offset := map[string]int{}
 	done := map[string]failure{}
-	for round := 0; len(cur) > 0 && round < 1000; round++ {
+	for round := 0; len(cur) > 0 && round < 5000; round++ {
 		dbg("shrink round %d: %d cases", round, len(cur))
 		keys := make([]string, 0, len(cur))
 		for k := range cur {
@@ -1121,8 +1267,16 @@ func (e *engine) shrinkAll(fails []failure) []failure {
 		sort.Strings(keys)
 		var batch []Case
 		var owner []string
+		exhausted := map[string]bool{}
 		for _, k := range keys {
-			for _, r := range reductions(cur[k].cs) {
+			reds := reductions(cur[k].cs)
+			lo := offset[k]
+			hi := lo + window
+			if hi >= len(reds) {
+				hi = len(reds)
+				exhausted[k] = true
+			}
+			for _, r := range reds[lo:hi] {
 				batch = append(batch, r)
 				owner = append(owner, k)
 			}
@@ -1144,8 +1298,13 @@ func (e *engine) shrinkAll(fails []failure) []failure {
 			}
 		}
 		for _, k := range keys {
-			if !moved[k] {
+			switch {
+			case moved[k]:
+			case exhausted[k]:
 				done[k] = cur[k]
+			default:
+				offset[k] += window
+				next[k] = cur[k]
 			}
 		}
 		cur = next
@@ -1200,7 +1359,9 @@ func Run(c *core.Ctx) {
 	}
 
 	var cases []Case
-	single := func(ops []Op) Case { return normalize(Case{Mode: "direct", Ctxs: []Ctx{{Chunks: [][]Op{ops}}}, Order: []int{0}}) }
+	single := func(ops []Op) Case {
+		return normalize(Case{Mode: "direct", Ctxs: []Ctx{{Chunks: [][]Op{ops}}}, Order: []int{0}})
+	}
 	as := atoms()
 	var wrapped []Op
 	for _, a := range as {
@@ -1227,6 +1388,9 @@ func Run(c *core.Ctx) {
 	exh := len(cases)
 	r := c.Rand("histories")
 	nr := c.Pick(20000, 300000)
+	if os.Getenv("VERIF_C12_NORANDOM") != "" {
+		nr = 0
+	}
 	for i := 0; i < nr; i++ {
 		cases = append(cases, normalize(randCase(r)))
 	}
@@ -1237,6 +1401,7 @@ func Run(c *core.Ctx) {
 	got := e.evaluate(cases)
 	dbg("evaluated")
 	var fails []failure
+	var failViols []Viol
 	nctx, nhttp, multi, maxOps := 0, 0, 0, 0
 	for i, cs := range cases {
 		c.Eval(1)
@@ -1263,6 +1428,7 @@ func Run(c *core.Ctx) {
 			if !tags[v.Tag] {
 				tags[v.Tag] = true
 				fails = append(fails, failure{cs, v.Tag})
+				failViols = append(failViols, v)
 			}
 		}
 	}
@@ -1272,10 +1438,17 @@ func Run(c *core.Ctx) {
 	c.Set("max_executed_ops_in_a_context", maxOps)
 	c.Set("failing_case_rule_pairs_before_reduction", len(fails))
 	dbg("failing %d", len(fails))
+	if os.Getenv("VERIF_DEBUG") != "" {
+		h := map[string]int{}
+		for _, f := range fails {
+			h[f.tag]++
+		}
+		dbg("tags %v", h)
+	}
 	if len(fails) == 0 {
 		return
 	}
-	min := e.shrinkAll(fails)
+	min := e.shrinkAll(fails, failViols)
 	c.Set("canonical_witnesses", len(min))
 	for _, f := range min {
 		vs := e.evaluate([]Case{f.cs})[0]
